@@ -77,7 +77,8 @@ func classLine(class string, rng *rand.Rand) string {
 	case "dep_cycle":
 		// hand-merged link events that form a dependency cycle i1 -> i3 -> i1
 		return validLine(map[string]any{"type": "link", "from": "i1", "to": "i3", "ts": float64(0)}) + "\n" +
-			validLine(map[string]any{"type": "link", "from": "i3", "to": "i1", "ts": float64(0)})
+			validLine(map[string]any{"type": "link", "from": "i3", "to": "i1", "ts": float64(0)}) + "\n" +
+			validLine(map[string]any{"type": "new_task", "id": "i4", "epic": "", "state": "todo", "title": "outside the cycle", "body": "", "ts": float64(80)})
 	case "deep_nesting":
 		return `{"type":"future","ts":"2026-01-01T00:00:40Z","data":` + strings.Repeat("[", 5000) + strings.Repeat("]", 5000) + `}`
 	case "huge_valid_body":
@@ -147,6 +148,9 @@ func (e *Env) runLineCase(c lineCase, idx int, seed int64) (*Obs, error) {
 		args, stdin = []string{"--json", "set", t1}, []byte(`{"body":"changed"}`)
 	case "sequence":
 		args = []string{"--json", "sequence", craftID("i3"), t1}
+	case "sequence_new":
+		// an edge from a task outside a (hand-merged) cycle into it: the reachability walk must terminate
+		args = []string{"--json", "sequence", t1, craftID("i4")}
 	case "sequence_rm":
 		args = []string{"--json", "sequence", "rm", t1, craftID("i3")}
 	case "compact":
